@@ -1,12 +1,19 @@
 #!/bin/bash
 # sweep.sh <tier> <seed> [props...] — runs the checks one after the other on /repo and prints one line per check.
-cd /verif
+root=/verif
+if [ -n "$SNAP" ]; then
+  # run from a snapshot (evidence goes to the snapshot too): used to try the checks while /verif is being edited
+  root=/tmp/vsnap_sweep.$$; rm -rf $root; mkdir -p $root/out
+  rsync -a --exclude out --exclude .git /verif/ $root/; cp -r /verif/out/cache $root/out/cache 2>/dev/null
+  trap 'rm -rf $root' EXIT
+fi
+cd $root
 export GOFLAGS=-mod=mod GOPROXY=off GOSUMDB=off GOTOOLCHAIN=local
 tier=$1; seed=$2; shift 2
 props="$@"; [ -z "$props" ] && props="C01 C02 C03 C04 C05 C06 C07 C08 C09 C10 C11 C12 C13 C14 C15 C16 C17 C18 C19 C20"
-mkdir -p out/sweep
+mkdir -p /verif/out/sweep
 for p in $props; do
   t0=$(date +%s)
-  VERIF_SEED=$seed timeout 14400 bin/vcheck $p --tier $tier > out/sweep/$p.$tier.$seed.log 2>&1; rc=$?
-  echo "SWEEP $p tier=$tier seed=$seed rc=$rc wall=$(( $(date +%s) - t0 ))s $(grep -cE '^VIOLATION' out/sweep/$p.$tier.$seed.log) violations $(grep -c '^KNOWN-FINDING' out/sweep/$p.$tier.$seed.log) known"
+  VERIF_SEED=$seed timeout 14400 bin/vcheck $p --tier $tier > /verif/out/sweep/$p.$tier.$seed.log 2>&1; rc=$?
+  echo "SWEEP $p tier=$tier seed=$seed rc=$rc wall=$(( $(date +%s) - t0 ))s $(grep -cE '^VIOLATION' /verif/out/sweep/$p.$tier.$seed.log) violations $(grep -c '^KNOWN-FINDING' /verif/out/sweep/$p.$tier.$seed.log) known"
 done
